@@ -75,8 +75,8 @@ func verifC19(policyOracle func(policy string, useDefault, inject bool) bool, la
 		annoVal = vp.String("annoVal", 5)
 		annos[annotation.SidecarInject.Name] = annoVal
 	}
-	nNever := vp.Choice("nNever", 3)
-	nAlways := vp.Choice("nAlways", 3)
+	nNever := vp.Choice("nNever", 3+vp.Tier())
+	nAlways := vp.Choice("nAlways", 3+vp.Tier())
 	policy := vp.String("policy", 8)
 	cfg := &Config{Policy: InjectionPolicy(policy), NeverInjectSelector: verifSelectors("never", nNever), AlwaysInjectSelector: verifSelectors("always", nAlways)}
 	meta := metav1.ObjectMeta{Name: "pod", Namespace: ns, Labels: lbls, Annotations: annos}
